@@ -2,7 +2,7 @@ SPECIFICATION Spec
 CONSTANTS
   Keys <- K3
   Vals <- V2
-  MaxOps = 7
+  MaxOps = 6
   MaxRef = 2
   Ops <- OpsAll
   KeepHist = TRUE
